@@ -28,4 +28,5 @@ for id in "$@"; do
   RES="$RES $id=$rc"
 done
 git -C /repo checkout -- . ; git -C /repo status --short | head -3
+git -C /verif checkout -- evidence 2>/dev/null   # evidence written while a seeded change was applied must not be kept
 echo "RESULT $NAME tests=$TESTS_WITH demo_with=$DEMO_WITH demo_without=$DEMO_WITHOUT checks:$RES"
